@@ -330,6 +330,27 @@ CHECKS = {
         note='transactions overlapping the damage, or depending on one that '
              'does through a back pointer, are unconstrained (no checksums '
              'in the format)'),
+    'C18': dict(
+        technique='explicit-state exploration of all backup histories up to a '
+                  'depth through repozo.main on a live FileStorage with a '
+                  'virtual clock, plus exhaustive damage enumeration of '
+                  'repository files for verification',
+        text='All histories (depth 4 quick / 5 thorough) over commit, pack, '
+             'backup with 6 (10) flag sets of full / quick / gzip / kill-old, '
+             'and backup while a transaction sits between vote and finish. '
+             'After every history recovery runs for every date in {none, each '
+             'backup second, +-1 s} with and without --with-verify; the '
+             'output must equal, byte for byte, the committed prefix of the '
+             'data file recorded when the selected (still held) backup ran, '
+             'or be refused when no backup qualifies; it must open with the '
+             'restored index and answer like the index-less open; the intact '
+             'repository must verify in full and quick mode. For 3 fixed '
+             'chains every data file is removed, grown, cut at every length '
+             'and altered at every byte: full verify fails iff the decoded '
+             'payload differs, quick verify iff the decoded size differs.',
+        design='6 (C18)',
+        note='"any backup file" = data files of the chain -V reads; content '
+             'decided with the gzip module repozo uses'),
     'C19': dict(
         technique='explicit-state exploration of the real fsIndex over a '
                   '12-key alphabet, every query compared with a sorted dict',
